@@ -136,11 +136,16 @@ class Check(PropertyCheck):
         late_at = rng.randint(1, max(1, gen.num_ops(jobs) - 1)) if late_kind else None
         while not tr.done():
             if late_kind and n_acc == late_at:
-                lines += ["obs " + late_kind, "wsnap", "reset", "wsnap"]
                 kinds.append(late_kind)
-                tr.reset()
+                if rng.random() < 0.5:
+                    lines += ["obs " + late_kind, "wsnap", "reset", "wsnap"]
+                    tr.reset()
+                    late_kind = None
+                    continue
+                # ... or the episode simply goes on: the late-comer is judged on what it has seen (or, should it choose to catch up
+                # with the schedule it found, on the whole episode)
+                lines += ["obs " + late_kind, "wsnap"]
                 late_kind = None
-                continue
             r = rng.random()
             if r < 0.1:
                 bad = gen.gen_invalid_request(rng, tr, M)
@@ -214,24 +219,42 @@ class Check(PropertyCheck):
             return res
         if line == "reset":
             ctx["n"] = 0
+            ctx["late"] = {}
         if line.startswith("disp") and out.startswith("ok"):
             ctx["n"] += 1
-        if not (line.startswith("disp") or line == "reset"):
-            return res
         d = impl.dispatcher
+        if d is None:
+            return res
         lists = d.schedule.schedule
         mk = max((x.end_time for ms in lists for x in ms), default=0)
         idle = sum((ms[-1].end_time - sum(x.operation.duration for x in ms)) for ms in lists if ms)
+        late_now = False
+        if line.startswith(("obs ", "obsn ")) and ctx.get("n", 0) > 0 and out.isdigit():
+            # created in the middle of an episode: what the schedule looked like then
+            ctx.setdefault("late", {})[int(out)] = (ctx["n"], mk, idle)
+            late_now = True
+        if not (line.startswith("disp") or line == "reset" or late_now):
+            return res
         for i, kind in enumerate(impl.kinds):
             if kind not in ("makespan_reward", "idle_reward"):
                 continue
             if i < len(getattr(impl, "sub_state", [])) and not impl.sub_state[i]:
                 continue            # retired (unsubscribed) observers are not notified any more: nothing to add up
             o = impl.heap[i]
-            if len(o.rewards) != ctx["n"]:
-                res.append(("count", f"{kind}: {len(o.rewards)} rewards after {ctx['n']} accepted dispatches (`{line}`)"))
             if any(r > 0 for r in o.rewards):
                 res.append(("sign", f"{kind}: positive reward in {o.rewards}"))
+            if i in ctx.get("late", {}):
+                # a late-comer: one reward per dispatch it has seen, adding up to minus what the objective grew by since it came - or,
+                # if it caught up with the schedule it found, one per dispatch of the episode adding up to the whole objective
+                n0, mk0, idle0 = ctx["late"][i]
+                seen = (ctx["n"] - n0, -(mk - mk0) if kind == "makespan_reward" else -(idle - idle0))
+                whole = (ctx["n"], -mk if kind == "makespan_reward" else -idle)
+                if (len(o.rewards), sum(o.rewards)) not in (seen, whole):
+                    res.append(("late", f"{kind} created after {n0} dispatches: rewards {o.rewards} after {ctx['n']} dispatches; expected "
+                                f"{seen[0]} rewards adding up to {seen[1]} (or, caught up, {whole[0]} adding up to {whole[1]})"))
+                continue
+            if len(o.rewards) != ctx["n"]:
+                res.append(("count", f"{kind}: {len(o.rewards)} rewards after {ctx['n']} accepted dispatches (`{line}`)"))
             want = -mk if kind == "makespan_reward" else -idle
             if sum(o.rewards) != want:
                 res.append((kind + "-sum", f"{kind}: sum(rewards)={sum(o.rewards)} (rewards={o.rewards}) but "
